@@ -238,7 +238,7 @@ def _known_type(n):
     branches have evident, agreeing types"""
     if isinstance(n, ast.Constant):
         return type(n.value) if n.value is not None and n.value is not Ellipsis else None
-    if isinstance(n, (ast.Compare, ast.BoolOp)):
+    if isinstance(n, (ast.Compare, ast.BoolOp)) or (isinstance(n, ast.UnaryOp) and isinstance(n.op, ast.Not)):
         return bool
     if _evidently_untyped(n):
         return ANY  # nothing can be known about it on a stream without type information: compatible with itself and with numbers
@@ -289,7 +289,7 @@ def _is_boolean_combination(body):
     if isinstance(body, (ast.Compare, ast.BoolOp)):
         return True
     if isinstance(body, ast.UnaryOp) and isinstance(body.op, ast.Not):
-        return _is_boolean_combination(body.operand)
+        return True  # `not x` is a truth value whatever x is
     return False
 
 
